@@ -50,6 +50,8 @@ type Program struct {
 	AllFuncs map[*ssa.Function]bool
 	LoadSecs float64
 	NumTypeErrors int
+	downMemo map[*ssa.Function]downInfo
+	fnUses   map[*ssa.Function][]fnUse
 }
 
 // IsLib reports whether the package path is in library scope L (DESIGN §2).
@@ -338,6 +340,163 @@ func FuncName(fn *ssa.Function) string {
 	return s
 }
 
+// fnUse is one place where a function appears as a value (not as the callee of a static call).
+type fnUse struct {
+	in  *ssa.Function
+	ins ssa.Instruction
+}
+
+// buildFnUses indexes, for every function of the module (and the controls), where it is used as a
+// value: operand of MakeClosure (closures, bound-method wrappers) or a plain function operand.
+func (p *Program) buildFnUses() {
+	p.fnUses = map[*ssa.Function][]fnUse{}
+	var rands []*ssa.Value
+	for fn := range p.AllFuncs {
+		if fn.Blocks == nil || !(InScope(fn) || IsControl(FuncPkgPath(fn))) {
+			continue
+		}
+		for _, b := range fn.Blocks {
+			for _, ins := range b.Instrs {
+				rands = ins.Operands(rands[:0])
+				for _, op := range rands {
+					if op == nil || *op == nil {
+						continue
+					}
+					tf, ok := (*op).(*ssa.Function)
+					if !ok {
+						continue
+					}
+					if call, isCall := ins.(ssa.CallInstruction); isCall && call.Common().Value == ssa.Value(tf) {
+						continue // static call, not a value
+					}
+					p.fnUses[tf] = append(p.fnUses[tf], fnUse{fn, ins})
+				}
+			}
+		}
+	}
+}
+
+// downwardCreators: if every place where c becomes a function value hands that value straight down
+// as an argument of a static call whose parameter is only ever invoked (or handed down the same way,
+// two levels) — or calls it on the spot — the value cannot outlive the activation that created it.
+// Returns the creating functions; ok=false when some use lets the value escape (stored, returned,
+// converted to an interface, passed to unknown code) or c is never used as a value.
+func (p *Program) downwardCreators(c *ssa.Function) ([]*ssa.Function, bool) {
+	if r, ok := p.downMemo[c]; ok {
+		return r.creators, r.ok
+	}
+	if p.downMemo == nil {
+		p.downMemo = map[*ssa.Function]downInfo{}
+	}
+	if p.fnUses == nil {
+		p.buildFnUses()
+	}
+	p.downMemo[c] = downInfo{}
+	uses := p.fnUses[c]
+	if len(uses) == 0 {
+		return nil, false
+	}
+	var callOnly func(prm *ssa.Parameter, depth int) bool
+	callOnly = func(prm *ssa.Parameter, depth int) bool {
+		if prm.Referrers() == nil {
+			return true
+		}
+		for _, r := range *prm.Referrers() {
+			switch x := r.(type) {
+			case *ssa.Call:
+				if x.Call.Value == ssa.Value(prm) {
+					continue // invoked
+				}
+				sc := x.Call.StaticCallee()
+				if sc == nil || sc.Blocks == nil || depth >= 2 || len(x.Call.Args) != len(sc.Params) {
+					return false
+				}
+				for i, a := range x.Call.Args {
+					if a == ssa.Value(prm) && !callOnly(sc.Params[i], depth+1) {
+						return false
+					}
+				}
+			case *ssa.DebugRef:
+			default:
+				return false
+			}
+		}
+		return true
+	}
+	// handedDown: value v (the function itself, a closure over it, or a conversion of either) is used
+	// only as a handed-down argument / immediate callee
+	var handedDown func(v ssa.Value, depth int) bool
+	handedDown = func(v ssa.Value, depth int) bool {
+		refs := v.Referrers()
+		if refs == nil || depth > 3 {
+			return false
+		}
+		for _, r := range *refs {
+			switch x := r.(type) {
+			case *ssa.ChangeType:
+				if !handedDown(x, depth+1) {
+					return false
+				}
+			case *ssa.Call:
+				if x.Call.Value == v {
+					continue
+				}
+				sc := x.Call.StaticCallee()
+				if sc == nil || sc.Blocks == nil || len(x.Call.Args) != len(sc.Params) {
+					return false
+				}
+				for i, a := range x.Call.Args {
+					if a == v && !callOnly(sc.Params[i], 0) {
+						return false
+					}
+				}
+			case *ssa.DebugRef:
+			default:
+				return false
+			}
+		}
+		return true
+	}
+	seenCr := map[*ssa.Function]bool{}
+	var creators []*ssa.Function
+	for _, u := range uses {
+		switch x := u.ins.(type) {
+		case *ssa.MakeClosure:
+			if x.Fn != ssa.Value(c) || !handedDown(x, 0) {
+				return nil, false
+			}
+		case *ssa.ChangeType:
+			if !handedDown(x, 0) {
+				return nil, false
+			}
+		case *ssa.Call:
+			// the bare function as an argument
+			sc := x.Call.StaticCallee()
+			if sc == nil || sc.Blocks == nil || len(x.Call.Args) != len(sc.Params) {
+				return nil, false
+			}
+			for i, a := range x.Call.Args {
+				if a == ssa.Value(c) && !callOnly(sc.Params[i], 0) {
+					return nil, false
+				}
+			}
+		default:
+			return nil, false
+		}
+		if !seenCr[u.in] {
+			seenCr[u.in] = true
+			creators = append(creators, u.in)
+		}
+	}
+	p.downMemo[c] = downInfo{creators, true}
+	return creators, true
+}
+
+type downInfo struct {
+	creators []*ssa.Function
+	ok       bool
+}
+
 // Reachable returns the set of functions reachable in the call graph from roots.
 func (p *Program) Reachable(roots []*ssa.Function) map[*ssa.Function]bool {
 	return p.ReachableSkip(roots, nil)
@@ -346,6 +505,7 @@ func (p *Program) Reachable(roots []*ssa.Function) map[*ssa.Function]bool {
 // ReachableSkip is Reachable with some call-graph edges ignored.
 func (p *Program) ReachableSkip(roots []*ssa.Function, skip map[*callgraph.Edge]string) map[*ssa.Function]bool {
 	seen := map[*ssa.Function]bool{}
+	pending := map[*ssa.Function][]*ssa.Function{}
 	var stack []*ssa.Function
 	for _, r := range roots {
 		if r != nil && !seen[r] {
@@ -356,6 +516,14 @@ func (p *Program) ReachableSkip(roots []*ssa.Function, skip map[*callgraph.Edge]
 	for len(stack) > 0 {
 		f := stack[len(stack)-1]
 		stack = stack[:len(stack)-1]
+		// function values this function creates and hands down become callable now
+		for _, c := range pending[f] {
+			if !seen[c] {
+				seen[c] = true
+				stack = append(stack, c)
+			}
+		}
+		delete(pending, f)
 		n := p.CG.Nodes[f]
 		if n == nil {
 			continue
@@ -366,6 +534,27 @@ func (p *Program) ReachableSkip(roots []*ssa.Function, skip map[*callgraph.Edge]
 			}
 			c := e.Callee.Func
 			if c != nil && !seen[c] {
+				// A function value that never escapes the activation that creates it (it is only handed
+				// down as a call argument to parameters that are only invoked) can run only while its
+				// creator is on the stack: if no creator is reachable from these roots, neither is the
+				// function. (The call graph is context-insensitive: a shared higher-order helper such
+				// as forEachFrame(src, visit) otherwise links Decode to the closure Encode passes.)
+				if e.Site != nil && e.Site.Common().StaticCallee() == nil && !e.Site.Common().IsInvoke() {
+					if creators, ok := p.downwardCreators(c); ok {
+						live := false
+						for _, cr := range creators {
+							if seen[cr] {
+								live = true
+							}
+						}
+						if !live {
+							for _, cr := range creators {
+								pending[cr] = append(pending[cr], c)
+							}
+							continue
+						}
+					}
+				}
 				seen[c] = true
 				stack = append(stack, c)
 			}
